@@ -1350,7 +1350,58 @@ def c10_27(ctx):
 
 
 
+def c10_28(ctx):
+    """PSBTOut.update evaluated over the six wallet types × {scripts only in the lookups, scripts already attached and lookups empty (a second
+    updater that brings only its own keys), both}: afterwards the output carries its RedeemScript / WitnessScript and the derivations of the
+    keys the updater knows.  An update must never take away a script the output already has: an output left with a WitnessScript but no
+    RedeemScript serialises to bytes PSBT.parse refuses"""
+    from sa.cells import Evaluator, Obj, Raised, Undecided
+    spec = "psbt:PSBTOut.update"
+    mod, fn = rl.get(ctx, spec)
+    wallets, hooks, ser, H, S = _wallet_cells()
+    hk = dict(hooks)
+    hk[("S256Point", "sec")] = lambda o, *a, **k: o.attrs["sec_"]
+    hk[("HDPublicKey", "sec")] = lambda o, *a, **k: o.attrs["sec_"]
+    out = []
+    for label, spk, rs, ws, keys, m in wallets:
+        verdict = None
+        for attached, lookups in ((False, True), (True, False), (True, True)):
+            if not attached and not lookups:
+                continue
+            ctx.count("cells")
+            me = Obj("psbt", "PSBTOut", {"tx_out": Obj("tx", "TxOut", {"amount": 1000, "script_pubkey": spk}), "redeem_script": rs if attached else None,
+                                         "witness_script": ws if attached else None, "named_pubs": {}, "extra_map": {}})
+            named = {k: Obj("psbt", "NamedHDPublicKey", {"sec_": k, "point": Obj("psbt", "NamedPublicKey", {"sec_": k})}) for k in keys}
+            pubkey_lookup = {}
+            for k, o in named.items():
+                pubkey_lookup[k] = o
+                pubkey_lookup[H(k)] = o
+            redeem_lookup = {spk.attrs["commands"][1]: rs} if (rs is not None and lookups) else {}
+            witness_lookup = {S(ser(ws.attrs["commands"])): ws} if (ws is not None and lookups) else {}
+            who = "%s output, scripts %s, lookups %s" % (label, "already attached" if attached else "not yet attached", "given" if lookups else "empty (second updater)")
+            try:
+                Evaluator(ctx.repo, method_hooks=hk).call(spec, [pubkey_lookup, redeem_lookup, witness_lookup], self_obj=me)
+            except Raised as x:
+                verdict = "%s: update raises %s" % (who, x.name)
+                break
+            except Undecided as u:
+                return [ctx.err(spec, "output updater not evaluable for a %s output: %s" % (label, u), fn, mod)]
+            if me.attrs["redeem_script"] is not rs or me.attrs["witness_script"] is not ws:
+                lost = "RedeemScript" if me.attrs["redeem_script"] is not rs else "WitnessScript"
+                verdict = "%s: the output is left without its %s%s" % (who, lost, " -- the update took away a script the output already carried; with the other script still attached the "
+                                                                                  "PSBT serialises to bytes PSBT.parse refuses" if attached else "")
+                break
+            if set(me.attrs["named_pubs"].keys()) != set(keys):
+                verdict = "%s: derivations of %d of the %d key(s) are attached" % (who, len(me.attrs["named_pubs"]), len(keys))
+                break
+        out.append(ctx.bad(spec, verdict, fn, mod, key="out-update:" + label) if verdict else
+                   ctx.ok(spec, "%s output: scripts kept / attached and all known keys' derivations added from every source" % label, fn, mod, key="out-update:" + label))
+    return out
+
+
+
 OBLIGATIONS = [
+    ("C10.28", "CELLS output updater sources", c10_28),
     ("C10.27", "CELLS lookup windows", c10_27),
     ("C10.26", "CELLS combiners both directions", c10_26),
     ("C10.25", "CELLS compact size (shared)", c10_25),
